@@ -46,7 +46,7 @@ def eval_on(repo_dir, pid, mod):
     facts = Facts(fdir)
     ctx = R.Ctx(pid, facts, 'thorough', 0)
     try:
-        mod.run(ctx)
+        R.run_module(mod, ctx)
     except CheckBroken as e:
         return [], 'CHECK-BROKEN %s' % e
     return sorted({v['key'] for v in ctx.violations}), None
@@ -180,7 +180,7 @@ def run_alt(ctx, pid, mod, alt):
     try:
         facts = Facts(out)
         c2 = R.Ctx(pid, facts, 'thorough', 0)
-        mod.run(c2)
+        R.run_module(mod, c2)
         keys = sorted({v['key'] for v in c2.violations})
         for v in c2.violations:
             v2 = dict(v)
